@@ -263,3 +263,92 @@ def c12(p, tier, replay):
         "bounded universe: writer types / versions / values of the Wire and Evo models",
         "enum reading rule: 1-byte tags select the variant whose schema discriminant equals the tag, wider tags select by position",
         "grouping by struct / tuple / array is not part of the compared structure (only order, widths, lengths, tags)"])
+
+# ------------------------------------------------------------------------------------------------
+# C04: packed fast path (a) transparent  (b) only for padding-free, wire-ordered layouts
+# ------------------------------------------------------------------------------------------------
+def _bulk_relevant(t):
+    return vlib.any_node(t, lambda x: x["k"] in ("vec", "arr", "struct", "tup", "enum"))
+
+@prop("C04")
+def c04(p, tier, replay):
+    v = Verdict(p, tier)
+    built, binp = family_build(tier, ["wire", "evo"])
+    # ---- (b) impl -> spec: REAL packed answer + OBSERVED layout validated against Packed.tla!TrulyPacked
+    req = os.path.join(WORK, "c04_%s.req" % tier)
+    seen = collections.OrderedDict()
+    def want(t, ver):
+        seen.setdefault(json.dumps(t, sort_keys=True), (t, set()))[1].add(ver)
+    for line in open(built["wire"][0]):
+        r = json.loads(line)
+        want(r["t"], r["ver"])
+    for line in open(built["evo"][0]):
+        r = json.loads(line)
+        for d in r["ts"]:
+            for ver in (0, 1, 2):
+                want(d, ver)
+    if replay:
+        rec = json.load(open(replay))["record"]
+        seen = {"x": (rec["t"], {rec["ver"]})}
+    with open(req, "w") as o:
+        for (t, vers) in seen.values():
+            o.write(json.dumps({"t": t, "vers": sorted(vers)}) + "\n")
+    obs = os.path.join(WORK, "c04_%s.obs" % tier)
+    vlib.run_bin(binp, ["layouts", req, obs])
+    observations = [json.loads(l) for l in open(obs)]
+    for o in observations:
+        if "tool_error" in o:
+            raise ToolError("harness: " + o["tool_error"])
+    r = vlib.run_tlc("Packed.tla", "Packed.cfg", "packed_" + tier, workers=8, timeout=3000,
+                     extra_env={"OBS": obs}, java_opts="-Xss1g -Xmx12g")
+    if r["violated"]:
+        raise ToolError("Packed: unexpected TLC error (see %s)" % r["out"])
+    verd = os.path.join(WORK, "c04_%s.verdicts" % tier)
+    nver = vlib.printed_json(r["out"], verd)
+    if nver != len(observations):
+        raise ToolError("Packed trace validation judged %d of %d observations" % (nver, len(observations)))
+    npacked = 0
+    for line in open(verd):
+        j = json.loads(line)
+        o = observations[j["i"] - 1]
+        if j["verdict"] == "ok-packed":
+            npacked += 1
+        if j["verdict"] not in ("ok-packed", "ok-not-packed"):
+            v.report("c04.packed_not_truly_packed", {"t": o["t"], "ver": o["ver"]},
+                     "%s v%d: real repr_c_optimization_safe = yes, but with the observed layout %s the memory image is not the "
+                     "field-wise encoding" % (vlib.show(o["t"]), o["ver"], json.dumps(o["lt"])[:200]), o)
+    # ---- (a) transparency: the bulk-capable records of the wire replay (bytes and loaded values) + call trace refinement
+    evals = 0
+    if not replay:
+        recs = built["wire"][0]
+        res = recs + ".res"
+        vlib.run_bin(binp, ["replay", recs, res], env={"WIRE_ALLMODES_EVERY": "1000000"})
+        records = open(recs).read().splitlines()
+        for line in open(res):
+            rr = json.loads(line)
+            rec = json.loads(records[rr["i"]])
+            if not _bulk_relevant(rec["t"]):
+                continue
+            evals += 1
+            for f in rr["fails"]:
+                if f["check"].startswith("tool."):
+                    raise ToolError("harness: %s" % f["check"])
+                if f["check"] in ("c02.bytes", "c01.roundtrip.bare", "c01.load.bare", "c01.consumed.bare", "c02.specbytes.value",
+                                  "c02.specbytes.load", "c02.specbytes.consumed", "c04.calls"):
+                    v.report("c04." + f["check"], {"t": rec["t"], "ver": rec["ver"]},
+                             "%s :: %s" % (vlib.show(rec["t"]), f["detail"]), rec)
+    samples = [{"type": vlib.show(o["t"]), "ver": o["ver"], "real_packed": o["packed"], "observed_layout": o["lt"]}
+               for o in observations if o["packed"] and o["t"]["k"] in ("struct", "enum", "tup")][:3]
+    cov = {"states": r["stats"]["distinct"], "transitions": r["stats"]["generated"],
+           "traces_validated_against_impl": len(observations),
+           "evaluations": len(observations) + evals, "distinct_nontrivial": npacked,
+           "rule": "one observation per (type definition, version): real packed answer + observed layout tree; non-trivial = the real code answers 'packed' (the implication packed => TrulyPacked is not vacuous)",
+           "bulk_relevant_replays": evals, "samples": samples, "exhaustive": not replay,
+           "explanation": "impl -> spec: TLC validates every recorded (type, version, REAL packed answer, OBSERVED layout) against "
+                          "Packed.tla: packed => no padding, wire order, memory image = field-wise encoding at that version. "
+                          "spec -> impl: bytes of Vec/array/boxed-slice/struct of every catalogue type equal the field-wise Enc and "
+                          "load back element-wise (shared with C01/C02 replay), real write calls are concatenations of whole "
+                          "primitive writes of the writer machine"}
+    return v.finish("model_checking", cov, WIRE_ASSUME + [
+        "layout of repr(Rust) types is observed (offset_of/size_of), never predicted; enum variant offsets follow from the explicit repr (RFC 2195)",
+        "usize/isize are 8 bytes on this platform, identical to their wire form"])
